@@ -63,7 +63,7 @@ Theorem C15_time_of_day :
      Ok (tod_seconds h m s * 1000000000, mk_iter ([bcd_byte h; bcd_byte m; bcd_byte s] ++ rest) 3)) /\
   (forall h m s, 0 <= h <= 23 -> 0 <= m <= 59 -> 0 <= s <= 59 ->
      bytes_of_items (enc_dvb_duration_seconds (tod_seconds h m s * 1000000000)) = [bcd_byte h; bcd_byte m; bcd_byte s] /\
-     bytes_of_items (DvbFloat.enc_dvb_duration_seconds_float (tod_seconds h m s * 1000000000)) = [bcd_byte h; bcd_byte m; bcd_byte s]).
+     bytes_of_items (enc_dvb_duration_seconds_float (tod_seconds h m s * 1000000000)) = [bcd_byte h; bcd_byte m; bcd_byte s]).
 Proof. exact thm_time_of_day. Qed.
 Print Assumptions C15_time_of_day.
 
@@ -81,7 +81,7 @@ Print Assumptions C15_decode_joint.
 Theorem C15_encode_joint : forall mjd h m s,
   15079 <= mjd <= 65535 -> 0 <= h <= 23 -> 0 <= m <= 59 -> 0 <= s <= 59 ->
   bytes_of_items (enc_dvb_time (spec_unix mjd h m s)) = spec_time_bytes mjd h m s /\
-  bytes_of_items (DvbFloat.enc_dvb_time_float (spec_unix mjd h m s)) = spec_time_bytes mjd h m s.
+  bytes_of_items (enc_dvb_time_float (spec_unix mjd h m s)) = spec_time_bytes mjd h m s.
 Proof. exact thm_encode_joint. Qed.
 Print Assumptions C15_encode_joint.
 
@@ -108,8 +108,8 @@ Print Assumptions C15_durations_decode.
 Theorem C15_durations_encode : forall h m s, 0 <= h <= 99 -> 0 <= m <= 59 -> 0 <= s <= 59 ->
   bytes_of_items (enc_dvb_duration_seconds (spec_duration_ns h m s)) = [bcd_byte h; bcd_byte m; bcd_byte s] /\
   bytes_of_items (enc_dvb_duration_minutes (spec_duration_ns h m s)) = [bcd_byte h; bcd_byte m] /\
-  bytes_of_items (DvbFloat.enc_dvb_duration_seconds_float (spec_duration_ns h m s)) = [bcd_byte h; bcd_byte m; bcd_byte s] /\
-  bytes_of_items (DvbFloat.enc_dvb_duration_minutes_float (spec_duration_ns h m s)) = [bcd_byte h; bcd_byte m].
+  bytes_of_items (enc_dvb_duration_seconds_float (spec_duration_ns h m s)) = [bcd_byte h; bcd_byte m; bcd_byte s] /\
+  bytes_of_items (enc_dvb_duration_minutes_float (spec_duration_ns h m s)) = [bcd_byte h; bcd_byte m].
 Proof. exact thm_durations_encode. Qed.
 Print Assumptions C15_durations_encode.
 
